@@ -121,7 +121,9 @@ directive @transform(op: String!) repeatable on FIELD
         for definition in doc.definitions {
             match definition {
                 TypeSystemDefinition::Schema(s) => {
-                    assert!(schema.is_none());
+                    if schema.is_some() {
+                        return Err(InvalidSchemaError::DuplicateSchemaDefinition);
+                    }
                     if s.node.extend {
                         unimplemented!("Trustfall does not support extending schemas");
                     }
